@@ -11,7 +11,7 @@ def run(res):
     own = wc.OWN['C02']
     th = res.tier == 'thorough'
     K = wc.base(Acts=ACTS, Ids={1, 2}, MaxAuto=1, Types=wc.T2, Bases=wc.BASES2, MaxQ=3 if th else 2, **wc.comps(C3, falsy={'c1', 'c3'}))
-    wc.check_and_replay(res, 'c02_lifecycle', K, own, depth_all=3 if th else 2, walks=20000 if th else 2000, walk_len=40)
+    wc.check_and_replay(res, 'c02_lifecycle', K, own, depth_all=3 if th else 2, walks=20000 if th else 2000, walk_len=40, weak_pass=True)
     # a postponed callback raising while the queue is released: delivered ones are not repeated, the rest stays pending
     Kf = wc.base(Acts={'create', 'add', 'remove', 'toggle', 'fault'}, Ids={1}, MaxAuto=1, Types=wc.T2, Bases=wc.BASES2, MaxQ=3,
                  **wc.comps(C3, falsy={'c1'}))
